@@ -244,5 +244,14 @@ def fuelBound (sc : Scen) : Nat :=
 
 def final (sc : Scen) : St := run sc (fuelBound sc) (init sc)
 
+/-- a lookup of component `n` through the public API AFTER a start (or after an earlier such lookup) has ended: the
+    registries and the fields are as the last run left them (a failed run removed the cache entries of what was in creation
+    and nothing else: `failAt`); creation resumes for `n` only.  `sc` may differ from the scenario of the earlier runs in what
+    the callbacks answer (an `Init` that fails the first time only). -/
+def lookupAfter (sc : Scen) (st : St) (n : Nat) : St :=
+  match st.status with
+  | .running => st
+  | _ => run sc (fuelBound sc + 1) { st with status := .running, todo := [n], todoBoot := [], stage := .refresh }
+
 end M2
 end Ioc
